@@ -404,6 +404,8 @@ inductive RunOpt where
   | notFound (h : Option H)      -- rest.WithNotFoundHandler(h)
   | notAllowed (h : Option H)    -- rest.WithNotAllowedHandler(h)
   | chain (n : Nat)              -- rest.WithChain(chain.New(c1 … cn)): `svr.ngin.chain = chn` (replaces the native chain)
+  | cors                         -- rest.WithCors(): `SetNotAllowedHandler(cors.NotAllowedHandler(...))`, then the router is
+                                 -- wrapped: `corsRouter.ServeHTTP` answers EVERY `OPTIONS` request itself (204)
   | router                       -- rest.WithRouter(router.NewRouter()): `server.router = router` (a FRESH patRouter:
                                  -- whatever an earlier option installed on the old router is gone, including the
                                  -- engine's not-found wrapper that `NewServer` puts in front of the user's options)
@@ -414,12 +416,17 @@ structure Server where
   router : PatRouter := {}
   groups : List Group := []      -- `engine.routes`, in `AddRoutes` order
   chain : Option Nat := none     -- `engine.chain` (`WithChain`): the number of middlewares of the custom chain
+  cors : Bool := false           -- `server.router` is a `corsRouter` around the patRouter (`WithCors`)
+
+/-- the handler `cors.NotAllowedHandler(nil, origins...)` (a reserved id): it answers 404 (204 for `OPTIONS`). -/
+def corsNA : H := 204404
 
 def Server.apply (s : Server) : RunOpt → Server
   | .notFound h => { s with router := { s.router with notFound := some (.engine h) } }
   | .notAllowed h => { s with router := { s.router with notAllowed := h } }
-  | .router => { s with router := {} }
+  | .router => { s with router := {}, cors := false }
   | .chain n => { s with chain := some n }
+  | .cors => { s with router := { s.router with notAllowed := some corsNA }, cors := true }
 
 /-- `rest.NewServer(c, opts...)`: `opts = append([]RunOption{WithNotFoundHandler(nil)}, opts...)`, applied in order. -/
 def newServer (opts : List RunOpt) : Server :=
@@ -480,6 +487,16 @@ def Server.start (s : Server) : Server × StartResult :=
    match res.2 with
    | some e => .panics e
    | none => .listens)
+
+/-- who answers a request that reaches `server.router.ServeHTTP`. -/
+inductive SrvResponse where
+  | preflight                    -- `corsRouter`: `cors.Middleware` wrote 204 for an `OPTIONS` request; the patRouter is NOT asked
+  | router (r : Response)        -- the patRouter answers
+  deriving Repr, DecidableEq
+
+/-- `server.router.ServeHTTP`: with `WithCors` the CORS middleware sits in front of the patRouter. -/
+def Server.serveHTTP (s : Server) (method path : String) : SrvResponse :=
+  if s.cors && method == "OPTIONS" then .preflight else .router (s.router.serveHTTP method path)
 
 /-- `rest.MustNewServer(c, opts...)`: `NewServer(c, opts...)` (the error branch — `c.SetUp()` failing — ends the process). -/
 def mustNewServer (opts : List RunOpt) : Server := newServer opts
